@@ -558,7 +558,11 @@ class SymInt:
             raise Unsupported("symbolic ** beyond small concrete exponents")
         if type(e) is int and type(m) is int and e == m - 2:
             return SymInt(named_inverse(s.t, m))
-        raise Unsupported("modular exponentiation other than x**(m-2) mod m")
+        if type(m) is int and type(e) in (SymInt, SymBool):
+            return _split_small(e, lambda k: (s ** k) % m if k > 0 else 1 % m, "exponent")
+        if type(m) is int and type(e) is int and 0 <= e <= 4 * MAX_SPLIT:
+            return (s ** e) % m if e > 0 else 1 % m
+        raise Unsupported("modular exponentiation other than x**(m-2) mod m or a small exponent")
 
     # comparisons
     def __eq__(s, o):
@@ -878,6 +882,10 @@ class sym_float(metaclass=_SymFloatMeta):
 def sym_pow(x, e, m=None):
     if type(x) is SymInt:
         return x.__pow__(e, m)
+    if type(e) in (SymInt, SymBool) and type(x) is int:
+        if m is None:
+            return e.__rpow__(x)
+        return _split_small(e, lambda k: builtins.pow(x, k, m), "exponent")
     if m is None:
         return builtins.pow(x, e)
     return builtins.pow(x, e, m)
